@@ -477,5 +477,15 @@ func forms(n int, reduced bool) []string {
 		out = append(out, "bytes=0-0,"+b, "bytes="+b+", -1")
 	}
 	out = append(out, "bytes=-4,-2", "bytes=-1,-1,-1", "BYTES=-1", "-1", "bytes=0-,-1,0-0")
+	if reduced && n > 4096 {
+		// 64 KiB contents make long case lines: every third form
+		var o []string
+		for i, h := range out {
+			if i%3 == 0 {
+				o = append(o, h)
+			}
+		}
+		return o
+	}
 	return out
 }
